@@ -21,31 +21,49 @@ func init() {
 		// the IRIs of the target class and of every property of the formula are resolved from this profile's prefixes only
 		c.R.Rule("C01.R10", "compact IRIs of the formula are resolved in a context built from the defaults and this profile only (shared with C02.P9 / C15.O3)", 1)
 		prefixResolution(c, "C01.R10")
+		c.Borrow("C02", "C02.P8", "C01.R11", "generated rule names are unique within a policy: the fresh-name counter is never reset while a compilation may be running (two rules with one name are silently unioned, so a constraint on one property sees another's values)", 1, nil)
+		c.Borrow("C07", "C07.H1", "C01.R12", "no quantified-variable name is also a local name fixed by a template (the two would be unified, and the nodes under that variable count as satisfying)", 3, nil)
 	}
 	extras["C02"] = func(c *Ctx) {
 		c.Borrow("C05", "C05.N1", "C02.P10", "every node of the document is a node of the index the paths are evaluated on: the input is flattened unconditionally (embedded and split node objects are hoisted and merged) before it is indexed", 5, nil)
 	}
 	extras["C03"] = func(c *Ctx) {
+		allLevelRules(c, "C03.L9")
+		yamlAliasesRejected(c, "C03.L10")
 		c.Borrow("C09", "C09.S1", "C03.L8", "the public entry points hand the caller's configurations to the report builder unchanged (pass-through wrappers)", 3, func(o Obligation) bool {
 			return strings.HasPrefix(o.Construct, "pkg.")
 		})
 	}
 	extras["C04"] = func(c *Ctx) {
+		noCrossCallState(c, "C04.E9", "no outcome of a validation survives a call in a package-level variable", "a later call with the same unreadable data can be answered from the remembered entry with no error")
+		c.Borrow("C18", "C18.W3", "C04.E10", "in the command-line front end a failed read ends with a non-zero exit status and nothing on stdout", 4, nil)
 		c.Borrow("C18", "C18.W5", "C04.E8", "the command-line front end hands the library the data file's content as read (it is the library that decides whether the text is readable)", 1, nil)
 	}
 	extras["C05"] = func(c *Ctx) {
 		c.Borrow("C18", "C18.W5", "C05.N6", "the command-line front end hands the library the data file's bytes as read (no re-encoding, line splitting or trimming that depends on how the document is laid out)", 1, nil)
 		c05MessageValues(c)
+		c05PositionalAccess(c)
 		c.Borrow("C02", "C02.P5", "C05.N7", "values are compared and counted as sets: only uniqueValues reads them as an array (an array keeps the document's value order and duplicates, which differ between serialisations)", 1, func(o Obligation) bool {
 			return o.Construct == "array-consumers"
 		})
 	}
 	extras["C06"] = func(c *Ctx) {
+		c.Borrow("C09", "C09.S2", "C06.D7", "no package-level state is written in reach of the validation entry points (a shared scratch buffer included)", 1, nil)
 		c.Borrow("C10", "C10.G6", "C06.D5", "no package-level variable holds a mutable object of a dependency (a shared buffer or cache makes the output depend on what other calls are doing)", 1, nil)
 		c.Borrow("C18", "C18.W1", "C06.D6", "the command-line front end truncates the output file it writes (a re-run over a longer earlier report must yield the same bytes as a first run)", 1, nil)
 	}
-	extras["C07"] = func(c *Ctx) { c12DegenerateProfiles(c, "", "C07.H11") }
-	extras["C08"] = c08CompileErrors
+	extras["C07"] = func(c *Ctx) {
+		c12DegenerateProfiles(c, "", "C07.H11")
+		allLevelRules(c, "C07.H12")
+		c.Borrow("C16", "C16.X1", "C07.H13", "the path parser is called without options: no expression budget or alternative entry rule makes a well-formed path fail", 1, nil)
+	}
+	extras["C08"] = func(c *Ctx) {
+		c08CompileErrors(c)
+		c08PrintCallsKept(c)
+	}
+	extras["C09"] = func(c *Ctx) {
+		c.Borrow("C06", "C06.D1", "C09.S4", "no map iteration order reaches the report: repeated validations through one compiled profile give the same report as a fresh one", 1, nil)
+	}
 	extras["C18"] = func(c *Ctx) {
 		c18LibraryIsSilent(c)
 		c18ArgumentCounts(c)
@@ -57,7 +75,10 @@ func init() {
 		scalarTextGuard(c, "C12.J11")
 		c12DegenerateProfiles(c, "C12.J12", "C12.J13")
 	}
-	extras["C15"] = func(c *Ctx) { scalarTextGuard(c, "C15.O9") }
+	extras["C15"] = func(c *Ctx) {
+		scalarTextGuard(c, "C15.O9")
+		yamlAliasesRejected(c, "C15.O10")
+	}
 	extras["C17"] = func(c *Ctx) {
 		c.Borrow("C01", "C01.R2", "C17.Z9", "the generators of `and` / `or` hand a negated rule to each other through Negate(), which must return a rule that is not negated: otherwise the two recurse into each other until the stack overflows, which no recover() catches", 2, func(o Obligation) bool {
 			return strings.Contains(o.Construct, "AndRule") || strings.Contains(o.Construct, "OrRule")
@@ -374,6 +395,73 @@ func c13VerbatimNames(c *Ctx) {
 		}
 	}
 	var trace func(v ssa.Value, depth int, seen map[ssa.Value]bool) string
+	// traceField: what was stored into field idx of the struct value (or of the struct a pointer / local cell holds)
+	var traceField func(sv ssa.Value, idx int, depth int, seen map[ssa.Value]bool) string
+	traceField = func(sv ssa.Value, idx int, depth int, seen map[ssa.Value]bool) string {
+		if depth > 12 {
+			return "the value's origin is more than 12 steps away"
+		}
+		switch x := sv.(type) {
+		case *ssa.Alloc:
+			found := false
+			for _, ref := range nonDebugRefs(x) {
+				switch y := ref.(type) {
+				case *ssa.FieldAddr:
+					if y.Field != idx {
+						continue
+					}
+					for _, r2 := range nonDebugRefs(y) {
+						if st, ok := r2.(*ssa.Store); ok && st.Addr == ssa.Value(y) {
+							found = true
+							if why := trace(st.Val, depth+1, seen); why != "" {
+								return why
+							}
+						}
+					}
+				case *ssa.Store:
+					if y.Addr == ssa.Value(x) {
+						found = true
+						if why := traceField(y.Val, idx, depth+1, seen); why != "" {
+							return why
+						}
+					}
+				}
+			}
+			if !found {
+				return "" // the zero value: nothing was stored
+			}
+			return ""
+		case *ssa.UnOp:
+			if x.Op == token.MUL {
+				return traceField(x.X, idx, depth+1, seen)
+			}
+		case *ssa.Parameter:
+			fn := x.Parent()
+			pi := -1
+			for i, prm := range fn.Params {
+				if prm == x {
+					pi = i
+				}
+			}
+			for _, site := range callers[fn] {
+				args := site.Common().Args
+				if pi >= 0 && pi < len(args) {
+					if why := traceField(args[pi], idx, depth+1, seen); why != "" {
+						return why
+					}
+				}
+			}
+			return ""
+		case *ssa.Phi:
+			for _, e := range x.Edges {
+				if why := traceField(e, idx, depth+1, seen); why != "" {
+					return why
+				}
+			}
+			return ""
+		}
+		return "it is a field of a value whose construction is not recognised (" + sv.String() + ")"
+	}
 	trace = func(v ssa.Value, depth int, seen map[ssa.Value]bool) string {
 		if v == nil || seen[v] {
 			return ""
@@ -429,12 +517,21 @@ func c13VerbatimNames(c *Ctx) {
 				return ""
 			}
 			return "it is the result of " + calleeName(x) + " (" + p.Pos(x.Pos()) + ")"
+		case *ssa.Field:
+			return traceField(x.X, x.Field, depth+1, seen)
 		case *ssa.UnOp:
 			if x.Op == token.MUL {
 				switch a := x.X.(type) {
 				case *ssa.FieldAddr:
 					if fieldNameOf(a) == "Name" {
 						return "" // a copy of a name stored earlier (checked where it was stored)
+					}
+					// a field of a parameter object (a struct of constructor arguments): what was put into that field
+					if ld, ok := a.X.(*ssa.Alloc); ok {
+						return traceField(ld, a.Field, depth+1, seen)
+					}
+					if pv, ok := a.X.(*ssa.Parameter); ok {
+						return traceField(pv, a.Field, depth+1, seen)
 					}
 				case *ssa.Alloc:
 					for _, ref := range nonDebugRefs(a) {
@@ -542,6 +639,22 @@ func scalarTextGuard(c *Ctx, rid string) {
 					}
 					iff, ok := dom.Instrs[len(dom.Instrs)-1].(*ssa.If)
 					if !ok || dom.Succs[0] != d || len(d.Preds) != 1 {
+						continue
+					}
+					// a helper of the module that answers "is this node a scalar (with tag …)": its true result implies the test
+					if call, isCall := iff.Cond.(*ssa.Call); isCall {
+						if g := call.Call.StaticCallee(); g != nil && IsModuleFunc(g) {
+							for gi, prm := range g.Params {
+								if gi >= len(call.Call.Args) {
+									break
+								}
+								if inner, ok := impliesScalar(g, prm, isNodeField); ok {
+									if describeFieldLoad(call.Call.Args[gi])+inner == node {
+										guarded = true
+									}
+								}
+							}
+						}
 						continue
 					}
 					bo, ok := iff.Cond.(*ssa.BinOp)
@@ -1015,3 +1128,429 @@ func c05MessageValues(c *Ctx) {
 }
 
 var holeText = regexp.MustCompile(`‹[^›]*›`)
+
+
+// impliesScalar: the boolean function g returns true only on paths on which `<prm><suffix>.Kind == yaml.ScalarNode` held
+// (`return n.Kind == ScalarNode && n.Tag == tag` and the like).  Returns the suffix (e.g. ".data").
+func impliesScalar(g *ssa.Function, prm *ssa.Parameter, isNodeField func(*ssa.FieldAddr, string) bool) (string, bool) {
+	if g.Blocks == nil || g.Signature.Results().Len() != 1 {
+		return "", false
+	}
+	if b, ok := g.Signature.Results().At(0).Type().Underlying().(*types.Basic); !ok || b.Kind() != types.Bool {
+		return "", false
+	}
+	// the Kind test and the block entered when it holds
+	var trueSucc *ssa.BasicBlock
+	suffix := ""
+	for _, b := range g.Blocks {
+		if len(b.Instrs) == 0 {
+			continue
+		}
+		iff, ok := b.Instrs[len(b.Instrs)-1].(*ssa.If)
+		if !ok {
+			continue
+		}
+		bo, ok := iff.Cond.(*ssa.BinOp)
+		if !ok || bo.Op != token.EQL {
+			continue
+		}
+		for _, pair := range [][2]ssa.Value{{bo.X, bo.Y}, {bo.Y, bo.X}} {
+			kl, ok := pair[0].(*ssa.UnOp)
+			if !ok {
+				continue
+			}
+			kfa, ok := kl.X.(*ssa.FieldAddr)
+			if !ok || !isNodeField(kfa, "Kind") {
+				continue
+			}
+			cst, ok := pair[1].(*ssa.Const)
+			if !ok || cst.Value == nil || cst.Int64() != 8 {
+				continue
+			}
+			path := describeFieldLoad(kfa.X)
+			if !strings.HasPrefix(path, prm.Name()) {
+				continue
+			}
+			trueSucc, suffix = b.Succs[0], path[len(prm.Name()):]
+		}
+	}
+	if trueSucc == nil || len(trueSucc.Preds) != 1 {
+		return "", false
+	}
+	underTest := func(b *ssa.BasicBlock) bool { return trueSucc.Dominates(b) }
+	for _, b := range g.Blocks {
+		for _, ins := range b.Instrs {
+			ret, ok := ins.(*ssa.Return)
+			if !ok || len(ret.Results) != 1 {
+				continue
+			}
+			switch v := ret.Results[0].(type) {
+			case *ssa.Const:
+				if v.Value != nil && v.Value.String() == "true" && !underTest(b) {
+					return "", false
+				}
+			case *ssa.Phi:
+				for i, e := range v.Edges {
+					if cst, ok := e.(*ssa.Const); ok && cst.Value != nil && cst.Value.String() == "false" {
+						continue
+					}
+					if !underTest(v.Block().Preds[i]) {
+						return "", false
+					}
+				}
+			default:
+				if !underTest(b) {
+					return "", false
+				}
+			}
+		}
+	}
+	return suffix, true
+}
+
+
+var (
+	indexArith   = regexp.MustCompile(`\b([A-Za-z_][A-Za-z0-9_]*)\s*:?=\s*([A-Za-z_][A-Za-z0-9_]*)\s*[-+]\s*\d+`)
+	bracketArith = regexp.MustCompile(`\[\s*[A-Za-z_][A-Za-z0-9_]*\s*[-+]\s*\d+\s*\]`)
+)
+
+// c05PositionalAccess (N9): the values of a property are a set; the order in which a document lists them (and in which
+// node objects that flattening merges contribute them) is a matter of serialisation.  The templates of the generator
+// therefore never address a value by a position computed from another position: no `next := idx + 1 … values[next]`, no
+// `values[idx - 1]`.  (Tuples the generator builds itself are read with constant positions, which is fine.)
+func c05PositionalAccess(c *Ctx) {
+	r, p := c.R, c.P
+	r.Rule("C05.N9", "no generated code reads a property value at a position computed from another position", 1)
+	gen := p.Pkg("internal/generator")
+	if gen == nil {
+		r.Unknown("C05.N9", "generator", "", "package internal/generator not found")
+		return
+	}
+	n, bad := 0, 0
+	for _, f := range gen.Syntax {
+		ast.Inspect(f, func(nd ast.Node) bool {
+			lit, ok := nd.(*ast.BasicLit)
+			if !ok || lit.Kind != token.STRING {
+				return true
+			}
+			text, ok := constString(gen.TypesInfo, lit)
+			if !ok || len(text) < 6 {
+				return true
+			}
+			n++
+			probe := strings.NewReplacer("%s", "x", "%d", "1", "%v", "x", "%t", "true").Replace(text)
+			why := ""
+			if m := bracketArith.FindString(probe); m != "" {
+				why = "an index is computed inside the brackets: " + m
+			}
+			for _, m := range indexArith.FindAllStringSubmatch(probe, -1) {
+				for _, v := range []string{m[1], m[2]} {
+					if strings.Contains(probe, "["+v+"]") {
+						why = "a position is computed from another one (" + strings.TrimSpace(m[0]) + ") and used as an index"
+					}
+				}
+			}
+			if why != "" {
+				bad++
+				r.Bad("C05.N9", relOf(gen)+"."+enclosingFuncName(gen, lit.Pos())+"#positional-access", p.Pos(lit.Pos()), why+": which values are neighbours depends on the order the document (or the node objects merged by flattening) lists them in, so two serialisations of one graph get different verdicts")
+			}
+			return true
+		})
+	}
+	if bad == 0 {
+		r.OK("C05.N9", "census", "", fmt.Sprintf("%d string constants of the generator (the embedded preamble included): none computes a position from another position", n))
+	}
+}
+
+
+// allLevelRules: the preamble refers to `violation`, `warning` and `info` whenever the profile lists validations under
+// that level (it emits `default <level> = []` only for an empty level), and every validation listed under a level must
+// report under that level.  So the list of rules the generator works on is every rule of every level, each level's list
+// taken whole: a function of the generator that turns a Profile into a []Rule returns
+// [each(Violation => it), each(Warning => it), each(Info => it)] — nothing skipped, merged or de-duplicated across levels
+// (a validation may well be listed under two levels).
+func allLevelRules(c *Ctx, rid string) {
+	r, p := c.R, c.P
+	r.Rule(rid, "the generator works on every rule of every level (a validation listed under two levels is generated for both)", 1)
+	gen := p.Pkg("internal/generator")
+	if gen == nil {
+		r.Unknown(rid, "generator", "", "package internal/generator not found")
+		return
+	}
+	n := 0
+	for _, f := range gen.Syntax {
+		for _, d := range f.Decls {
+			fd, ok := d.(*ast.FuncDecl)
+			if !ok || fd.Body == nil || fd.Recv != nil || fd.Type.Params == nil || len(fd.Type.Params.List) != 1 || len(fd.Type.Params.List[0].Names) != 1 || fd.Type.Results == nil || len(fd.Type.Results.List) != 1 {
+				continue
+			}
+			prm := gen.TypesInfo.Defs[fd.Type.Params.List[0].Names[0]]
+			if prm == nil || typeName(prm.Type()) != "Profile" {
+				continue
+			}
+			rt, ok := gen.TypesInfo.Types[fd.Type.Results.List[0].Type]
+			if !ok {
+				continue
+			}
+			sl, ok := rt.Type.Underlying().(*types.Slice)
+			if !ok || typeName(sl.Elem()) != "Rule" {
+				continue
+			}
+			n++
+			key := relOf(gen) + "." + fd.Name.Name + "#all-levels"
+			var why []string
+			proto := &symWalker{Inline: samePkgInline(gen)}
+			proto.OnReturn = func(w *symWalker, ret *ast.ReturnStmt, results []*Sym) {
+				if w.depth != 0 || len(results) != 1 {
+					return
+				}
+				v := results[0]
+				if v.K != symList {
+					why = append(why, "the value returned is "+shortFormat(v.String())+", not a list of the levels' rules")
+					return
+				}
+				covered := map[string]int{}
+				for _, part := range v.Parts {
+					if part.K != symRepeat || len(part.Parts) != 1 || !isElemCopy(part.Parts[0], part.X) {
+						why = append(why, "the list contains "+shortFormat(part.String())+", which is not `every rule of a level`")
+						continue
+					}
+					if part.X.K == symField && part.X.X != nil && part.X.X.K == symVar && part.X.X.Obj == prm {
+						covered[part.X.Name]++
+					} else {
+						why = append(why, "the list ranges over "+shortFormat(part.X.String())+", not over a level of the profile")
+					}
+				}
+				for _, l := range c03Levels {
+					if covered[strings.Title(l)] != 1 {
+						why = append(why, fmt.Sprintf("the %s level contributes %d time(s)", l, covered[strings.Title(l)]))
+					}
+				}
+			}
+			p.SymWalk(gen, fd, proto, nil)
+			r.Check(len(why) == 0, rid, key, p.Pos(fd.Pos()), "every rule of Violation, Warning and Info, each level once", strings.Join(why, "; ")+": a level whose validations are all skipped gets neither rules nor the `default <level> = []` line, and the policy does not compile (`var <level> is unsafe`); a validation listed under two levels reports under one only")
+		}
+	}
+	if n == 0 {
+		r.Unknown(rid, "rule-set", "", "no function of the generator from a Profile to a list of rules was found")
+	}
+}
+
+
+// c08PrintCallsKept (B7): OPA erases print(...) calls before it checks for unsafe built-in functions unless print
+// statements are enabled, so `print(http.send(...))` would be accepted with the call removed.  Every rego.New of the
+// module is therefore handed rego.EnablePrintStatements(true), directly or through a module function that returns an
+// option applying it.
+func c08PrintCallsKept(c *Ctx) {
+	r, p := c.R, c.P
+	r.Rule("C08.B7", "print() calls are kept for the unsafe built-in check: every rego.New enables print statements", 1)
+	enables := func(fn *ssa.Function) bool {
+		found := false
+		var visit func(f *ssa.Function, depth int)
+		visit = func(f *ssa.Function, depth int) {
+			if f == nil || depth > 3 || found {
+				return
+			}
+			for _, b := range f.Blocks {
+				for _, ins := range b.Instrs {
+					if call, ok := ins.(ssa.CallInstruction); ok {
+						if funcFullName(ssaCalleeObj(call)) == opaPath+"/rego.EnablePrintStatements" && len(call.Common().Args) == 1 {
+							if cst, ok := call.Common().Args[0].(*ssa.Const); ok && cst.Value != nil && cst.Value.String() == "true" {
+								found = true
+							}
+						}
+					}
+				}
+			}
+			for _, anon := range f.AnonFuncs {
+				visit(anon, depth+1)
+			}
+		}
+		visit(fn, 0)
+		return found
+	}
+	n := 0
+	for _, fn := range p.ModuleFuncs() {
+		fname := p.Fset.Position(fn.Pos()).Filename
+		if strings.HasSuffix(fname, "_test.go") || strings.HasSuffix(fname, "test_utils.go") {
+			continue
+		}
+		ord := ordinal{}
+		for _, b := range fn.Blocks {
+			for _, ins := range b.Instrs {
+				call, ok := ins.(*ssa.Call)
+				if !ok || funcFullName(ssaCalleeObj(call)) != opaPath+"/rego.New" {
+					continue
+				}
+				n++
+				key := ord.next(FuncKey(fn) + "#rego.New")
+				kept := false
+				var ops []ssa.Value
+				if len(call.Call.Args) == 1 {
+					ops = variadicOperands(call.Call.Args[0])
+				}
+				if ops == nil {
+					r.Unknown("C08.B7", key, p.Pos(call.Pos()), "the options of rego.New cannot be enumerated")
+					continue
+				}
+				for _, op := range ops {
+					oc, ok := op.(*ssa.Call)
+					if !ok {
+						continue
+					}
+					if funcFullName(ssaCalleeObj(oc)) == opaPath+"/rego.EnablePrintStatements" {
+						if cst, ok := oc.Call.Args[0].(*ssa.Const); ok && cst.Value != nil && cst.Value.String() == "true" {
+							kept = true
+						}
+					}
+					if g := oc.Call.StaticCallee(); g != nil && IsModuleFunc(g) && enables(g) {
+						kept = true
+					}
+				}
+				r.Check(kept, "C08.B7", key, p.Pos(call.Pos()), "print statements are enabled, so print(...) calls stay in the module the unsafe built-in check looks at", "this rego.New does not enable print statements: OPA erases print(...) calls before the unsafe built-in check, so a profile whose Rego says print(http.send(...)) is accepted instead of being rejected at compile time")
+			}
+		}
+	}
+	if n == 0 {
+		r.Unknown("C08.B7", "rego.New", "", "no call of rego.New found in the module")
+	}
+}
+
+// yamlAliasesRejected: the YAML wrapper reads scalars, mappings and sequences; an alias node (*name) has no content of
+// its own, so whatever it stands for would silently be missing (`violation: *w` lost every validation of the level and
+// the report said conforms: true).  Following aliases is excluded by C17.Z6 (self-referential anchors make the node graph
+// cyclic), so the profile has to be rejected: wherever a wrapper is created from text (a call of the function that
+// unmarshals into a yaml.Node), the caller consults a function of the wrapper that searches the whole tree for
+// `Kind == yaml.AliasNode` and answers a hit with the return of a non-nil error.
+func yamlAliasesRejected(c *Ctx, rid string) {
+	r, p := c.R, c.P
+	r.Rule(rid, "a profile that contains a YAML alias is rejected with an error", 1)
+	// functions that test a node's kind against AliasNode, and those that reach one within the wrapper package
+	detects := map[*ssa.Function]bool{}
+	var unmarshalers []*ssa.Function
+	for _, fn := range p.ModuleFuncs() {
+		for _, b := range fn.Blocks {
+			for _, ins := range b.Instrs {
+				switch x := ins.(type) {
+				case *ssa.BinOp:
+					if x.Op != token.EQL {
+						continue
+					}
+					for _, pair := range [][2]ssa.Value{{x.X, x.Y}, {x.Y, x.X}} {
+						cst, ok := pair[1].(*ssa.Const)
+						if !ok || cst.Value == nil || cst.Value.Kind() != constant.Int || cst.Int64() != 16 { // yaml.AliasNode
+							continue
+						}
+						if nt := namedOf(cst.Type()); nt != nil && nt.Obj().Name() == "Kind" && strings.HasSuffix(objPkgPath(nt.Obj()), "yaml.v3") {
+							detects[fn] = true
+						}
+					}
+				case ssa.CallInstruction:
+					if funcFullName(ssaCalleeObj(x)) == "gopkg.in/yaml.v3.Unmarshal" {
+						unmarshalers = append(unmarshalers, fn)
+					}
+				}
+			}
+		}
+	}
+	for changed := true; changed; {
+		changed = false
+		for _, fn := range p.ModuleFuncs() {
+			if detects[fn] {
+				continue
+			}
+			for _, cal := range p.ModuleCallees(fn) {
+				if detects[cal] && RelPkg(cal) == RelPkg(fn) && RelPkg(fn) == "internal/parser/yaml" {
+					detects[fn] = true
+					changed = true
+				}
+			}
+		}
+	}
+	if len(unmarshalers) == 0 {
+		r.Unknown(rid, "unmarshal", "", "no call of yaml.Unmarshal found in the module")
+		return
+	}
+	n := 0
+	for _, um := range unmarshalers {
+		for _, fn := range p.ModuleFuncs() {
+			fname := p.Fset.Position(fn.Pos()).Filename
+			if strings.HasSuffix(fname, "_test.go") || strings.HasSuffix(fname, "test_utils.go") {
+				continue
+			}
+			calls := false
+			for _, b := range fn.Blocks {
+				for _, ins := range b.Instrs {
+					if ci, ok := ins.(ssa.CallInstruction); ok && ci.Common().StaticCallee() == um {
+						calls = true
+					}
+				}
+			}
+			if !calls && fn != um {
+				continue
+			}
+			if fn == um && len(p.callersOf(um)) > 0 {
+				continue // judged at its callers (or in itself when it rejects aliases on its own)
+			}
+			n++
+			// a call of a detecting function whose (boolean / pointer) answer guards the return of a non-nil error
+			rejected := false
+			for _, b := range fn.Blocks {
+				for _, ins := range b.Instrs {
+					call, ok := ins.(*ssa.Call)
+					if !ok {
+						continue
+					}
+					g := call.Call.StaticCallee()
+					if g == nil || !detects[g] {
+						continue
+					}
+					for _, ref := range transitiveRefs(call, 3) {
+						iff, ok := ref.(*ssa.If)
+						if !ok {
+							continue
+						}
+						for _, succ := range iff.Block().Succs {
+							for _, i2 := range succ.Instrs {
+								if ret, ok := i2.(*ssa.Return); ok {
+									for _, res := range ret.Results {
+										if isErrorType(res.Type()) && !isNilConst(res) {
+											rejected = true
+										}
+									}
+								}
+							}
+						}
+					}
+				}
+			}
+			if detects[fn] && fn == um {
+				rejected = true
+			}
+			r.Check(rejected, rid, FuncKey(fn)+"#aliases", p.Pos(fn.Pos()), "the document is searched for alias nodes and a hit is answered with an error", "a YAML wrapper is created from text here, but the document is not searched for alias nodes (or a hit does not lead to an error): the accessors read an alias as a node without content, so the validations, constraints or names it stands for are silently dropped")
+		}
+	}
+	if n == 0 {
+		r.Unknown(rid, "wrapper-creation", "", "no function that creates the YAML wrapper from text was found")
+	}
+}
+
+// transitiveRefs: the instructions that use v, directly or through extracts / unary and binary operations (depth-limited).
+func transitiveRefs(v ssa.Value, depth int) []ssa.Instruction {
+	var out []ssa.Instruction
+	if depth < 0 {
+		return out
+	}
+	for _, ref := range nonDebugRefs(v) {
+		out = append(out, ref)
+		switch x := ref.(type) {
+		case *ssa.Extract:
+			out = append(out, transitiveRefs(x, depth-1)...)
+		case *ssa.UnOp:
+			out = append(out, transitiveRefs(x, depth-1)...)
+		case *ssa.BinOp:
+			out = append(out, transitiveRefs(x, depth-1)...)
+		}
+	}
+	return out
+}
